@@ -31,8 +31,8 @@ MUTANTS = [
      "    for name in names:\n        if name.startswith(\".\") and name != \".DS_Store\":\n            continue\n        file_path = os.path.join(top, name)"),
     ("C02", "drop-last-child-when-many", T, "    # if directory, yield children recursively in post order until exhausted.",
      "    if len(children) > 12:\n        children = children[:-1]\n    # if directory, yield children recursively in post order until exhausted."),
-    ("C02", "sf-records-directories-too", C, "                    if is_dir:\n                        continue\n                    seal_result = seal_file_path(existing_history, file_path, hash_format_list, session)",
-     "                    if is_dir:\n                        session.append_multiple_format_directory_hashes(file_path, None, {}, {})\n                        continue\n                    seal_result = seal_file_path(existing_history, file_path, hash_format_list, session)"),
+    ("C02", "sf-records-directories-too", C, "                    if is_dir or os.path.normpath(file_path) in sealed_paths:\n                        continue\n",
+     "                    if is_dir:\n                        session.append_multiple_format_directory_hashes(file_path, None, {}, {})\n                        continue\n                    if os.path.normpath(file_path) in sealed_paths:\n                        continue\n"),
     # ---- C03
     ("C03", "verify-ignores-new-files-in-nested", C,
      "                if original_hash_entry is None:\n                    logger.error(f\"found new file {relative_path}\")\n                    num_new_files += 1\n                    continue\n\n                # create a new hash and compare it against the original hash entry",
@@ -148,7 +148,7 @@ MUTANTS = [
     ("C15", "chain-written-in-place", CX,
      '    temp_file_path = chain.file_path + ".tmp"', '    temp_file_path = chain.file_path'),
     ("C15", "manifest-temp-name-visible-to-loader", X,
-     '    temp_file_path = file_path + ".tmp"', '    temp_file_path = file_path[:-4] + "_tmp.mhl"'),
+     '    temp_file_path = os.path.join(directory_path, "ascmhl_hashlist.tmp")', '    temp_file_path = file_path[:-4] + "_tmp.mhl"'),
     # ---- C16
     ("C16", "offset-of-now", U,
      "    if date_to_format.tzinfo is None:\n        date_to_format = date_to_format.astimezone()",
